@@ -2512,9 +2512,10 @@ class SumIntegerExpr(MathIntegerExpr):
         total = self.children[0].get_literal_result()
         for operand, operator in itertools.islice(zip(self.children, self.negate), 1, None):
             if operator:
-                total -= operand
+                total -= operand.get_literal_result()
             else:
-                total += operand
+                total += operand.get_literal_result()
+        return total
 
     def __eq__(self, other):
         if not isinstance(other, SumIntegerExpr): return False
@@ -2534,11 +2535,12 @@ class MulIntegerExpr(MathIntegerExpr):
         total = self.children[0].get_literal_result()
         for operand, operator in itertools.islice(zip(self.children, self.divide), 1, None):
             if operator == MulIntegerExprOp.DIV:
-                total //= operand
+                total //= operand.get_literal_result()
             elif operator == MulIntegerExprOp.MOD:
-                total %= operand
+                total %= operand.get_literal_result()
             else:
-                total *= operand
+                total *= operand.get_literal_result()
+        return total
 
     def __eq__(self, other):
         if not isinstance(other, MulIntegerExpr): return False
